@@ -7,6 +7,7 @@ import (
 	"os"
 	"path/filepath"
 	"strings"
+	"time"
 
 	"golang.org/x/tools/go/packages"
 	"golang.org/x/tools/go/ssa"
@@ -34,14 +35,18 @@ var repoPkgs = map[string][]string{
 
 func loadProgram(repo string, patterns []string, dir string) (*Program, error) {
 	cfg := &packages.Config{
-		Mode:       packages.LoadAllSyntax,
+		Mode:       packages.LoadSyntax,
 		Dir:        dir,
 		BuildFlags: []string{"-tags=verif", "-mod=mod"},
 		Env:        append(os.Environ(), "GOFLAGS=-mod=mod", "GOPROXY=off", "GOSUMDB=off", "GOTOOLCHAIN=local", "CGO_ENABLED=0"),
 	}
+	tLoad := time.Now()
 	initial, err := packages.Load(cfg, patterns...)
 	if err != nil {
 		return nil, err
+	}
+	if os.Getenv("EVYVC_TIMING") != "" {
+		fmt.Fprintf(os.Stderr, "packages.Load %.1fs\n", time.Since(tLoad).Seconds())
 	}
 	nerr := 0
 	packages.Visit(initial, nil, func(p *packages.Package) {
@@ -56,7 +61,11 @@ func loadProgram(repo string, patterns []string, dir string) (*Program, error) {
 		return nil, fmt.Errorf("packages contain errors")
 	}
 	prog, pkgs := ssautil.AllPackages(initial, ssa.GlobalDebug|ssa.InstantiateGenerics)
+	tB := time.Now()
 	prog.Build()
+	if os.Getenv("EVYVC_TIMING") != "" {
+		fmt.Fprintf(os.Stderr, "ssa build %.1fs\n", time.Since(tB).Seconds())
+	}
 	p := &Program{fset: prog.Fset, prog: prog, byName: map[string]*ssa.Package{}, tags: map[string]int64{}, tagNames: map[int64]string{}, sites: map[*ssa.Function]map[string]string{}, repo: repo}
 	for _, sp := range pkgs {
 		if sp == nil {
